@@ -1517,6 +1517,15 @@ class Gen(object):
         kw = {'overflow': 'saturate'}
         if r.random() < 0.6:
             kw['rounding'] = r.choice(ROUNDINGS)
+        if 'strings' in self.p.groups and r.random() < 0.08:
+            # decimal literals of great magnitude, with and without a fractional part, as a NumPy string
+            # array / a list of strings / one string
+            e = r.choice([r.randint(55, 62), 63, 63, 64, r.randint(65, 90)])
+            n = sign * ((1 << e) + r.randrange(1 << 20))
+            pair = [2 * n + sign, -1] if r.random() < 0.6 else [n, 0]
+            q2 = r.random()
+            sval = ['a', 'str', [1], [pair]] if q2 < 0.5 else ['l', [['s', pair[0], pair[1]]]] if q2 < 0.75 else ['s', pair[0], pair[1]]
+            return {'op': 'new', 'val': sval, 'fmt': fmt, 'kw': kw}
         if r.random() < 0.1:
             # integers around the 64-bit marks in an object-dtype array (what NumPy makes of Python
             # integers it cannot hold): one sign only, or both
